@@ -87,6 +87,20 @@ class CHECK(Check):
                     out.append((d, 'text', "select '" + ''.join(tup)))
             for text in pump_texts(thorough):
                 out.append((d, 'pump', text))
+            # keywords spelt with a non-ASCII letter that the case-insensitive lexer folds onto an ASCII one: in the shortest
+            # accepted sentence that contains the keyword
+            first = {}
+            for sent in sorted(pairs, key=len):
+                if all(t in m.lexeme for t in sent) and m.simulate(sent)[0]:
+                    for t in set(sent):
+                        first.setdefault(t, sent)
+            for t, sent in first.items():
+                sp = m.lexeme[t]
+                for alt in lexemes.fold_variants(sp):
+                    i = sent.index(t)
+                    toks = [m.lexeme[x] for x in sent]
+                    toks[i] = alt
+                    out.append((d, 'text', ' '.join(toks)))
             # size ladder
             for n in (10, 50, 100):
                 out.append((d, 'text', 'select ' + '(' * n + '1' + ')' * n))
